@@ -65,11 +65,13 @@ PAGES = {
     "count": "{{#invoke:cnt|count}}",
     "alias": "{{#myalias:1|y|n}} {{ovr|q}}",
     "reqglobal": "{{#invoke:h|reqglobal}} {{#invoke:h|reqglobal}}",
+    "nw_in_template": "{{nw|p}} and <nowiki>''q''</nowiki>",
+    "nw_in_template2": "<nowiki>first</nowiki>{{nw}}{{a|<nowiki>|</nowiki>}}",
 }
 for _c in CHANNELS:
     PAGES["chan_" + _c] = "{{#invoke:h|probe_%s}}{{#invoke:h|mutate_%s}}{{#invoke:h|probe_%s}}" % (_c, _c, _c)
 
-LIB = {"Template:a": "A[{{{1|}}}]", "Template:n": "N[{{{k|d}}}]", "Template:loop": "{{loop}}", "Template:ovr": "OVR-PAGE"}
+LIB = {"Template:nw": "N<nowiki>[[x]] {{a}}</nowiki>{{{1|}}}", "Template:a": "A[{{{1|}}}]", "Template:n": "N[{{{k|d}}}]", "Template:loop": "{{loop}}", "Template:ovr": "OVR-PAGE"}
 
 OTHER_CTX = {
     "extension_tags": {"extension_tags": {"foo": {"parents": ["phrasing"], "content": ["phrasing"]}}},
@@ -86,7 +88,7 @@ def events(tier):
         ev.append(("page", p, "expand"))
     for p in ("soup1", "soup2", "deflist", "templates"):
         ev.append(("page", p, "parse"))
-    for p in ("templates", "inv_ok", "soup2"):
+    for p in ("templates", "inv_ok", "soup2", "nw_in_template"):
         ev.append(("page", p, "parse_expand_all"))
     for o in OTHER_CTX:
         ev.append(("other_ctx", o))
@@ -238,6 +240,22 @@ def work(payload, skip, report):
     acc.sets["states"] = st
     acc.sets["transitions"] = tr
     return acc
+
+
+def replay(case):
+    d = scratch_dir("c09r")
+    try:
+        dbpath = make_db(d)
+        hist = [tuple(e) for e in case["history"]]
+        got = in_child(run_history, dbpath, hist)
+        want = in_child(run_history, dbpath, [hist[-1]])
+    finally:
+        shutil.rmtree(d, ignore_errors=True)
+    out = []
+    if got != want:
+        out.append({"oracle": "history_independent", "observed": {k: str(v)[:200] for k, v in got.items() if got.get(k) != want.get(k)},
+                    "expected": {k: str(v)[:200] for k, v in want.items() if got.get(k) != want.get(k)}})
+    return out
 
 
 def baselines(tier):
